@@ -158,6 +158,9 @@ class Sample(object):
         self.exposure = exposure
         self.rest_times = rest_times
         for el, frac in self.formula.mass_fraction.items():
+            if core.ision(el):
+                # Activation of the nucleus does not depend on the charge state
+                el = el.element
             if core.isisotope(el):
                 A = activity(el, self.mass*frac, environment, exposure, rest_times)
                 self._accumulate(A)
